@@ -1,5 +1,4 @@
-\* thread-structured model (publisher thread + one thread per subscriber), replayed on real threads at lock grain by
-\* harness/publisher_conc_replay.cpp; tools/checks/c16.py conc_replay() overrides the bounds by appending CONSTANTS
+\* two publishing threads against blocked subscriber threads (nobody leaves); bounds overridden by tools/checks/c16.py
 SPECIFICATION CSpec
 CONSTANTS
   NSubs = 2
@@ -25,4 +24,5 @@ CONSTANTS
   FixCopyOfWoken = TRUE
 INVARIANTS TypeOK WindowShape WindowSufficient GapFreeInOrder NoDuplicate SkipMonotone EOSOnlyWhen CloseWakesAll2 NoLostWaiter2 PosConsistent FreeListSound ThreadsOK NobodyForgotten WokenOnce
 PROPERTIES RecentIsNewest BehindSkipsOnlyDropped CopyIndependent GrowOnlyWhenFull
+CONSTRAINT NobodyLeft
 CHECK_DEADLOCK FALSE
